@@ -396,6 +396,9 @@ func Days(t *rapid.T, o Opts, n int) []int {
 	if span == 0 {
 		span = 3
 	}
+	if base == 0 && o.NearSpan != 0 {
+		base = 1 // day number 0 (1970-01-01) is a legitimate cluster centre, not "unset"
+	}
 	if base == 0 && mode <= 2 {
 		base = Day(t, "baseDay")
 		if mode == 2 {
